@@ -66,7 +66,7 @@ func controlsFor(prop string) []ctlCase {
 		return []ctlCase{
 			{"zzCtlDeleteOneTable", "C12.2", func(a *An, r *ssa.Function) {
 				if tf := findTables(a); tf != nil {
-					c12Release(a, tf, r)
+					c12Release(a, tf, r, "C12.2")
 				}
 			}},
 			{"zzCtlDeleteOneTable", "C12.3", pair("C12.3")},
